@@ -257,10 +257,19 @@ def obligations(tier, seed):
         vals["mi"] = rnd.choice([0, 59, 59, rnd.randint(0, 255)])
         vals["s"] = rnd.choice([0, 59, 60, 60, rnd.randint(0, 255)])
         vals["ns"] = rnd.choice([0, 999_999_999, 10**9, 10**9 + 1, rnd.randint(0, 2**32 - 1)])
+        if i % 4 == 0:
+            # the neighbourhood of the leap-second rule: 23:59:60 on and next to the last day of June / December of a table year
+            t = gen_tables.oracle_table()
+            dt = rnd.choice(t)[2]
+            p_ = dt - datetime.timedelta(days=1)
+            vals["y"], vals["mo"] = p_.year, p_.month
+            vals["d"] = rnd.choice([p_.day, p_.day, p_.day - 1, p_.day + 1, 29])
+            vals["h"], vals["mi"], vals["s"] = rnd.choice([23, 23, 22]), rnd.choice([59, 59, 58]), rnd.choice([60, 60, 59])
+            vals["ns"] = rnd.choice([0, 5 * 10**8])
     obs = [
         MirOb("c08_validity", "is_gregorian_valid", ins, post_valid,
               "is_gregorian_valid: every must-reject field combination is rejected and every valid date-time accepted (month lengths, 4/100/400 rule, second 60 only at 23:59 on generated leap-second days); no panic for any field values",
-              "is_gregorian_valid", probes=probes, ret_shape="bool", min_paths=4,
+              "is_gregorian_valid", probes=probes, ret_shape="bool", min_paths=4, timeout_ms=120000,
               bounds="full width: every i32 year x u8 month, day, hour, minute, second x u32 nanosecond",
               functions=["is_gregorian_valid", "usual_days_per_month", "is_leap_year", "january_years", "july_years"]),
         MirOb("c08_is_leap_year", "is_leap_year", [In("y", "i32")], lambda env, ret, refs: ret.e == leap(env["y"]),
